@@ -8,7 +8,7 @@ prop(
     design_ref="DESIGN.md 2/C12",
     stages=[
         dict(run="^TestPropDead$",
-             quick=dict(checks=48000, shards=16, timeout=600, shrinktime="8s"),
+             quick=dict(checks=40000, shards=16, timeout=600, shrinktime="8s"),
              thorough=dict(checks=1600000, shards=16, timeout=7200, env={"VERIF_PQ_DEPTH": 4})),
         dict(run="^TestPropDeadDirected$",
              quick=dict(checks=64000, shards=16, timeout=600, shrinktime="8s"),
